@@ -8,7 +8,9 @@ Decides (from the THIR of /repo's current source, nothing is executed):
     propagated, never unwrapped)
  R3 BitvectorDomain maps Err / non-values to Top of the right width, never to a value
  R4 carry / signed-carry / signed-borrow conditions as truth tables over sign atoms
- R5 operation -> apint primitive and operand order
+ R5 operation -> apint primitive and operand order; shifts saturate: amount < width guards the primitive and
+    an over-shift yields 0 (sign fill for INT_SRIGHT); clamping the amount to width-1 is accepted for the
+    arithmetic right shift only
  R6 operator traits delegate to the matching operation
 Does not decide: that apint's primitives compute what their names say.
 """
@@ -782,7 +784,31 @@ def run(run):
                 run.check("R5", key, good, "%s must compute %s(self, rhs); found %s(%s, %s)" % (v, want, c[0], fmt(c[1]), fmt(c[2])), site)
             elif v in REF_SHIFT:
                 n += 1
-                # if amount < width(self) { shift(self, amount) } else { fill }
+                # arms shared between shift operations: `if op == IntRight {..} else {..}` is specialised for this variant
+                for _ in range(4):
+                    if term[0] == "ite" and is_call(term[1], ("eq", "ne")) and len(term[1][2]) == 2:
+                        a, b = S.value(term[1][2][0]), S.value(term[1][2][1])
+                        if b[0] == "var" and a[0] == "adt":
+                            a, b = b, a
+                        if a[0] == "var" and a[1] == "op" and b[0] == "adt" and b[1].endswith("BinOpType"):
+                            same = (b[2] == v) == (term[1][1] == "eq")
+                            term = S.value(term[2] if same else term[3])
+                            continue
+                    break
+                # clamped form: shift(self, min(amount, width(self) - 1)) -- correct for the arithmetic shift only
+                p0 = ok_payload(term)
+                sh0 = strip(p0) if p0 else None
+                if sh0 and is_call(sh0) and sh0[1] in SHIFT_NAMES and len(sh0[2]) == 2:
+                    amt = strip(sh0[2][1])
+                    if is_call(amt, "min") and len(amt[2]) == 2:
+                        parts = [strip(x) for x in amt[2]]
+                        lim = [x for x in parts if x[0] == "bin" and x[1] == "Sub" and width_expr(x[2]) == "S" and fmt(x[3]) in ("1", "'1'")]
+                        raw = [x for x in parts if _mentions(x, "rhs") and not _mentions(x, "self")]
+                        if len(lim) == 1 and len(raw) == 1 and is_var(strip(sh0[2][0]), "self"):
+                            prim_ok = SHIFT_NAMES[sh0[1]] == SHIFT_NAMES[REF_SHIFT[v]]
+                            run.check("R5", key, prim_ok, "%s must compute %s(self, amount from rhs); found %s" % (v, SHIFT_NAMES[REF_SHIFT[v]], fmt(sh0)), site)
+                            run.check("R5", "%s|saturation-fill" % v, v == "IntSRight", "%s clamps the shift amount to width-1 instead of testing amount < width: shifting by width-1 keeps one bit of self, but an over-shift must yield zero (only the arithmetic right shift may saturate this way); found %s" % (v, fmt(sh0)), site)
+                            continue
                 if term[0] != "ite":
                     run.undecided("R5", key, "shift arm is not guarded by a saturation test: %s" % fmt(term), site)
                     continue
